@@ -317,6 +317,7 @@ class RecvWorld(World):
         self.max_inflight = 0
         self.max_unfinished = 0
         self.body_open: List[int] = []
+        self.expected_labels: Dict[int, Dict[str, Any]] = {}
         for t_us in sc.get("ticks", []):
             # harness timers: instants at which untimed events may happen between the
             # deadlines of the code's own timers
@@ -404,13 +405,32 @@ class RecvWorld(World):
                 labels = dict(m.get("labels") or {})
                 if m["timeout"] is not None:
                     labels["timeout"] = m["timeout"]
+                labels_types = None
+                typed = m.get("typed")
+                if typed:
+                    # what a kicker sends: labels prepared as text plus their types. 'partial': the types
+                    # were computed before a client-side middleware stamped further labels (trace id,
+                    # default timeout), which therefore travel un-typed
+                    from taskiq.labels import prepare_label
+
+                    if typed == "partial":
+                        labels.setdefault("trace", f"t-{i}")
+                    self.expected_labels[i] = dict(labels)
+                    prepared: Dict[str, Any] = {}
+                    labels_types = {}
+                    for lk, lv in labels.items():
+                        if typed == "partial" and lk in ("timeout", "trace"):
+                            prepared[lk] = lv
+                            continue
+                        prepared[lk], labels_types[lk] = prepare_label(lv)
+                    labels = prepared
                 tm = TaskiqMessage(
                     task_id=f"m{i}",
                     task_name=("no.such:task" if m["kind"] == "unknown" else self.task_name_for(i)),
                     labels=labels,
-                    labels_types=None,
+                    labels_types=labels_types,
                     args=[i],
-                    kwargs={"cur": {"pos": i}, "n": str(i)} if m.get("task_kind") == "annot" else {},
+                    kwargs={"cur": {"pos": i}, "n": str(i)} if m.get("task_kind") == "annot" else dict(m.get("kw") or {}),
                 )
                 data = broker.formatter.dumps(tm).message
             if m["ack"] is None:
@@ -437,6 +457,24 @@ class RecvWorld(World):
             wait_tasks_timeout=self.W,
         )
         self.finish_event = asyncio.Event()
+        if sc.get("entry") == "api":
+            # the programmatic entry point: taskiq.api.run_receiver_task builds the receiver itself and
+            # restarts listening after a broker error (its own thread pool is real: no sync tasks here;
+            # its stop event is internal: no stop request, no N / W)
+            from taskiq.api.receiver import run_receiver_task
+
+            self.listen_task = self.loop.create_task(
+                run_receiver_task(
+                    broker,
+                    receiver_cls=RecReceiver,
+                    validate_params=sc.get("validate", True),
+                    max_async_tasks=self.A if self.A is not None else 100,
+                    max_prefetch=self.P,
+                    propagate_exceptions=sc.get("propagate", True),
+                    ack_time=AcknowledgeType(ack) if ack else None,
+                ),
+            )
+            return
         self.listen_task = self.loop.create_task(self.receiver.listen(self.finish_event))
 
     _shared_exc: Any = None
